@@ -190,7 +190,7 @@ Section RunAction.
   Qed.
 
   Definition with_filter (c : cfg) (f : str -> bool) : cfg :=
-    {| c_run_ignored := c_run_ignored c; c_opts := c_opts c; c_filter := f |}.
+    {| c_run_ignored := c_run_ignored c; c_opts := c_opts c; c_filter := f; c_threads := c_threads c |}.
 
   Lemma exec_with_filter : forall c f pp po t, exec_node (with_filter c f) pp po t = exec_node c pp po t.
   Proof.
